@@ -2,6 +2,7 @@ package checks
 
 import (
 	"fmt"
+	"strings"
 	"testing"
 
 	"p9verif/evid"
@@ -308,6 +309,7 @@ func genReq(rt *rapid.T, m *refmodel.Model, conn int, fidAlpha []uint64, names [
 func init() {
 	replayRegistrars = append(replayRegistrars, func() {
 		registerReplay("C04/exhaustive", func(c seqCase) *fail { return runSeqCase(c, nil) })
+		registerReplay("C04/backend-failure", func(c faultCase) *fail { return runFaultCase(c, nil) })
 		registerReplay("C04/random", func(c seqCase) *fail { return runSeqCase(c, nil) })
 	})
 }
@@ -363,6 +365,46 @@ func TestC04(t *testing.T) {
 		}
 		h.Exhaustive(fmt.Sprintf("%s: all %d sequences of depth %d over %d requests after prefix %d", label, total, depth, len(alpha), prefix))
 		return true
+	}
+	// (0) the open state after a backend failure: sessions centred on Tlopen /
+	// Tlcreate are re-run with every backend call failing in turn (the engine of
+	// C15); a request the backend failed leaves the fid as it was - unopened fids
+	// stay unopened (reads EINVAL, a second Tlopen is served), opened directories
+	// stay refused, bindings stay
+	if env.Shard == 0 {
+		e5 := errSpec{Style: "linux", Errno: 5}
+		for _, native := range []bool{false, true} {
+			for si, reqs := range [][]*refcodec.Msg{
+				{tAttach(0, nofid, ""), tWalk(0, 1, "a", "h"), tOpen(1, 0), tRead(1, 0, 4), tWrite(1, 0, "x"), tFsync(1), tOpen(1, 2), tWrite(1, 0, "y"), tRead(1, 0, 4), tOpen(1, 0), tClunk(1)},
+				{tAttach(0, nofid, ""), tWalk(0, 1, "a"), tOpen(1, 0), tReaddir(1, 0, 4000), tWalk(1, 1, "b"), tMkdir(1, "m"), tOpen(1, 0), tReaddir(1, 0, 4000), tWalk(1, 1, "b"), tCreate(1, "n", 2, 0o644), tUnlinkat(1, "h"), tClunk(1)},
+				{tAttach(0, nofid, ""), tWalk(0, 1, "d"), tCreate(1, "nf", 2, 0o644), tWrite(1, 0, "abc"), tRead(1, 0, 3), tOpen(1, 0), tWalk(0, 1, "d"), tCreate(1, "nf2", 1, 0o644), tRead(1, 0, 1), tWrite(1, 0, "z"), tClunk(1)},
+			} {
+				c := faultCase{Conns: 1, Native: native, Tree: "deep"}
+				for _, r := range reqs {
+					c.Steps = append(c.Steps, connReq{0, r})
+				}
+				st := &faultStats{}
+				if f := runFaultCase(c, st); f != nil {
+					h.report("backend-failure", f, c)
+					return
+				}
+				for k := 1; k <= st.armedCalls; k++ {
+					fc := c
+					fc.FaultAt, fc.Err = k, &e5
+					fst := &faultStats{}
+					f := runFaultCase(fc, fst)
+					h.Case(faultHash(fc)+uint64(si), fst.struck && fst.afterOK > 0, "backend-failure:"+fst.op)
+					if f != nil && strings.HasPrefix(f.Sig, "harness-") {
+						t.Errorf("HARNESS-ERROR %s", f.Msg)
+						continue
+					}
+					if h.report("backend-failure", f, fc) {
+						return
+					}
+				}
+			}
+		}
+		h.Exhaustive("3 open-centred sessions x every backend call failing in turn x 2 backends")
 	}
 	full, reduced := c04Alphabet(false), c04Alphabet(true)
 	if !enumerate("depth2-fresh", full, 0, 2, false) || !enumerate("depth2-bound", full, 1, 2, false) ||
